@@ -44,6 +44,11 @@ class RepoModule:
                         ('from', node.module, a.name))
 
 
+class SuperProxy:
+    def __init__(self, obj, after):
+        self.obj, self.after = obj, after
+
+
 class ObjVal:
     """Instance of a repository class with concrete shape."""
     _n = [0]
@@ -253,6 +258,27 @@ class World:
                 todo.append(self.class_by_name(b, c.module))
         return None, None
 
+    def linear_mro(self, cls):
+        out, todo = [], [cls]
+        while todo:
+            c = todo.pop(0)
+            if c is None or c.node is None or any(
+                    c.name == x.name for x in out):
+                continue
+            out.append(c)
+            todo.extend(self.class_by_name(b, c.module) for b in c.bases)
+        return out
+
+    def find_method_after(self, cls, after, name):
+        mro = self.linear_mro(cls)
+        names = [c.name for c in mro]
+        start = names.index(after.name) + 1 if after.name in names else 0
+        for c in mro[start:]:
+            for n in c.node.body:
+                if isinstance(n, ast.FunctionDef) and n.name == name:
+                    return c, n
+        return None, None
+
     def construct(self, cls, args, kwargs, it, node):
         if cls.name in self.ctor_models:
             return self.ctor_models[cls.name](args, kwargs, it)
@@ -266,7 +292,8 @@ class World:
         owner, init = self.find_method(cls, '__init__')
         if init is not None:
             it.call_func(FuncRef(owner.module, init,
-                                 owner.name + '.__init__', self_obj=obj),
+                                 owner.name + '.__init__', self_obj=obj,
+                                 owner=owner),
                          args, kwargs, node)
         return obj
 
@@ -289,12 +316,18 @@ class World:
                                                 self_obj=obj), [], {})
                 if 'staticmethod' in decos:
                     return FuncRef(owner.module, m,
-                                   owner.name + '.' + name)
+                                   owner.name + '.' + name, owner=owner)
                 return FuncRef(owner.module, m, owner.name + '.' + name,
-                               self_obj=obj)
+                               self_obj=obj, owner=owner)
             if isinstance(m, ast.Assign):
                 return it.eval(m.value, Frame(module=owner.module))
             raise Unsupported('no attribute %s on %r' % (name, obj))
+        if isinstance(obj, SuperProxy):
+            owner, m = self.find_method_after(obj.obj.cls, obj.after, name)
+            if isinstance(m, ast.FunctionDef):
+                return FuncRef(owner.module, m, owner.name + '.' + name,
+                               self_obj=obj.obj, owner=owner)
+            raise Unsupported('super().%s not found' % name)
         if isinstance(obj, ClassRef):
             owner, m = self.find_method(obj, name)
             if isinstance(m, ast.FunctionDef):
@@ -355,6 +388,19 @@ class World:
                         return False
                     continue
                 terms.append(r)
+            return z3.And(*terms) if terms else True
+        if isinstance(a, dict) and isinstance(b, dict):
+            if len(a) != len(b):
+                return False
+            terms = []
+            for (k1, v1), (k2, v2) in zip(a.items(), b.items()):
+                for x, y in ((k1, k2), (v1, v2)):
+                    r = self.eq_model(x, y, it)
+                    if isinstance(r, bool):
+                        if not r:
+                            return False
+                        continue
+                    terms.append(r)
             return z3.And(*terms) if terms else True
         if isinstance(a, ObjVal) and isinstance(b, SVal):
             return a.as_val() == b.t
